@@ -611,7 +611,8 @@ class GroupBy:
             True if any group key contains null values, False otherwise
         """
         if self.key_is_chunked:
-            return self.group_ikey.null_count > 0
+            # null keys carry the code -1 in every chunk, they are not arrow nulls
+            return any((np.asarray(k) < 0).any() for k in self.group_ikey.chunks)
         else:
             return self.group_ikey.min() < 0
 
